@@ -55,6 +55,14 @@ def _resp(spec):
     if kind == "highpass":
         fc = spec["fc"]
         return lambda f: (1j * np.asarray(f, dtype=float) / fc) / (1.0 + 1j * np.asarray(f, dtype=float) / fc)
+    # responses that are NOT Hermitian by themselves: force_real changes what they do
+    if kind == "cgain":
+        g = complex(spec["g"], spec["fc_rel"])
+        return lambda f: g + 0 * np.asarray(f, dtype=float)
+    if kind == "onesided":
+        fc = spec["fc"]
+        return lambda f: np.where(np.asarray(f, dtype=float) >= 0,
+                                  1.0 / (1.0 + 1j * np.abs(np.asarray(f, dtype=float)) / fc), 0.25)
     raise ValueError(kind)
 
 
@@ -77,10 +85,10 @@ def func_specs(draw, span):
 
 @st.composite
 def resp_specs(draw, dt):
-    kind = draw(st.sampled_from(["lowpass", "delay", "gain", "highpass", "delay"]))
+    kind = draw(st.sampled_from(["lowpass", "delay", "gain", "highpass", "delay", "cgain", "onesided"]))
     fnyq = 0.5 / dt
     return dict(kind=kind, fc=fnyq * draw(floats(0.02, 0.8)), g=draw(floats(-2.0, 2.0)),
-                tau=dt * draw(st.integers(-6, 12)) / 2.0)
+                fc_rel=draw(floats(-1.5, 1.5)), tau=dt * draw(st.integers(-6, 12)) / 2.0)
 
 
 @st.composite
@@ -99,7 +107,7 @@ def signal_histories(draw):
     for _ in range(draw(st.integers(2, 22))):
         op = draw(st.sampled_from(["read", "read", "read", "shift", "imul", "idiv", "mul", "filter", "filter",
                                    "buffers", "buffers", "resample", "with_times", "add", "copy",
-                                   "set_times"]))
+                                   "set_times", "times_iadd"]))
         d = dict(op=op, i=draw(st.sampled_from([0, 0, 0, 1, 1, 2, 3, 5])))
         if op == "shift":
             d["k"] = draw(st.integers(-8, 8))           # units of dt/2
@@ -109,8 +117,9 @@ def signal_histories(draw):
             d["resp"] = draw(resp_specs(dt))
             d["force_real"] = draw(st.booleans())
         elif op == "buffers":
-            d["lead"] = draw(st.one_of(st.none(), st.integers(0, 40)))   # units of dt/2
-            d["trail"] = draw(st.one_of(st.none(), st.integers(0, 40)))
+            # units of dt/2; "given but not larger than the current buffer" (0) must be common
+            d["lead"] = draw(st.one_of(st.none(), st.just(0), st.integers(0, 40), st.integers(0, 40)))
+            d["trail"] = draw(st.one_of(st.none(), st.just(0), st.integers(0, 40), st.integers(0, 40)))
             d["force"] = draw(st.booleans())
         elif op == "resample":
             d["factor"] = draw(st.sampled_from([0.5, 2.0, 1.0]))
@@ -124,6 +133,8 @@ def signal_histories(draw):
         elif op == "set_times":
             d["k"] = draw(st.integers(-6, 6))
             d["grow"] = draw(st.integers(-4, 4))
+        elif op == "times_iadd":
+            d["k"] = draw(st.integers(-8, 8))
         ops.append(d)
     return dict(m=m, dt=dt, t0=t0, base=base, ops=ops)
 
@@ -325,6 +336,14 @@ def _run_signal_history(case, upto, reads, rec=None):
             pool.append((new, nm))
         elif name == "copy":
             pool.append((sig.copy(), None if model is None else model.copy()))
+        elif name == "times_iadd":
+            # attribute assignment through an in-place operator: the same array object is
+            # assigned back; only the grid moves, the function offsets stay
+            d = op["k"] * dt / 2
+            sig.times += d
+            classes.add("times_iadd")
+            if model is not None:
+                model.times = model.times + d
         elif name == "set_times":
             cur = np.array(sig.times, dtype=float)
             cdt = cur[1] - cur[0]
@@ -398,6 +417,12 @@ def ray_histories(draw):
     for _ in range(draw(st.integers(2, 10))):
         if draw(st.integers(0, 2)) == 0:
             ops.append(dict(op="read"))
+            continue
+        if draw(st.integers(0, 4)) == 0:
+            # in-place edit of an endpoint: `obj.to_point += d` or edit-and-reassign
+            ops.append(dict(op="inplace", attr=draw(st.sampled_from(["from_point", "to_point"])),
+                            how=draw(st.sampled_from(["iadd", "edit_reassign"])),
+                            d=[draw(floats(-300, 300)), draw(floats(-300, 300)), draw(floats(-100, 0))]))
             continue
         a = draw(st.sampled_from(settable))
         if a in ("from_point", "to_point"):
@@ -549,6 +574,32 @@ def check_ray_history(case, rec):
     dirty = False
     kinds = set()
     for k, op in enumerate(case["ops"]):
+        if op["op"] == "inplace":
+            a = op["attr"]
+            cur = np.array(attrs[a], dtype=float)
+            new_v = cur + np.array(op["d"])
+            new_v[2] = min(new_v[2], -1.0)
+            if op["how"] == "iadd":
+                arr = getattr(live, a)
+                if arr.dtype.kind != "f":
+                    setattr(live, a, arr.astype(float))
+                    arr = getattr(live, a)
+                delta = new_v - np.asarray(arr, dtype=float)
+                if a == "from_point":
+                    live.from_point += delta
+                else:
+                    live.to_point += delta
+            else:
+                pnt = getattr(live, a)
+                if pnt.dtype.kind != "f":
+                    pnt = pnt.astype(float)
+                pnt[:] = new_v
+                setattr(live, a, pnt)
+            attrs[a] = [float(x) for x in np.asarray(getattr(live, a), dtype=float)]
+            kinds.add("inplace_" + op["how"])
+            if reads:
+                dirty = True
+            continue
         if op["op"] == "set":
             a, v = op["attr"], op["value"]
             kinds.add("set_" + a)
@@ -583,7 +634,8 @@ def check_ray_history(case, rec):
                     "step %d: %s of the %s %s is %r after the history %r, a freshly constructed object "
                     "with the same attributes reports %r", k, n1, family, obj,
                     v1 if isinstance(v1, str) else v1.tolist(),
-                    [(o["attr"], o["value"]) if o["op"] == "set" else "read" for o in case["ops"][:k]],
+                    [(o["attr"], o.get("value", o.get("d"))) if o["op"] != "read" else "read"
+                     for o in case["ops"][:k]],
                     v2 if isinstance(v2, str) else v2.tolist())
         if dirty:
             rmr = True
